@@ -24,6 +24,7 @@ def run_case(case, **kw):
     """Execute case = {"prog", "tape", "clock"} and return (scheduler, world)."""
     world.HASH_SALT[0] = int(case.get("hsalt", 0))
     vsched.JUMP_POINTS[0] = bool(case.get("jump_points", False))
+    vsched.enable_instr_points(case.get("instr_points"))
     s, w = world.execute(
         case["prog"],
         tape=case.get("tape", ()),
